@@ -114,6 +114,10 @@ def split_annotations(lines):
                 j += 1
             anns.append((kind, '\n'.join(block), off))
             i = j + 1
+        elif s.startswith('//@+ '):
+            # inline insertion (closure contract wrapper, ghost iterator name): exempt from the statement-boundary rule
+            anns.append(('inline', s[5:], off))
+            i += 1
         elif s.startswith('//@ ') or s == '//@':
             anns.append(('in', lines[i].replace('//@', '   ', 1), off))
             i += 1
@@ -343,6 +347,12 @@ def merge(annotated_code, anns, new_code, body_hints=True):
             lost += 1
         if not body_hints and not _is_signature_level(new, j, txt):
             lost += 1
+            continue
+        if kind == 'inline':
+            if i not in o2n and not ((i - 1) in o2n):
+                lost += 1
+                continue
+            placed.setdefault(j, []).append(txt)
             continue
         if not _is_clause(txt) and not re.match(r'^\s*\w+:\s*$', txt) and not _at_stmt_boundary(new, j):
             # the statement this hint was attached to has changed shape: a statement-level ghost block can only
@@ -591,12 +601,14 @@ class Repo:
     def _active(self, items):
         return [it for it in items if it.active() and not it.is_test()]
 
-    def _impl_text(self, sf, imp):
+    def _impl_text(self, sf, imp, drop=()):
         """impl block text with inactive cfg alternatives removed"""
         subs = scan_items(sf.toks, imp.body_lo + 1, imp.body_hi)
         head = ''.join(t.text for t in sf.toks[imp.first:imp.body_lo + 1])
         parts = [head]
         for s in subs:
+            if s.kind == 'fn' and s.name in drop:
+                continue
             if s.active() and not s.is_test():
                 parts.append('\n    ' + s.text(with_attrs=False))
         parts.append('\n}')
@@ -652,7 +664,8 @@ class Repo:
                 if len(c) != 1:
                     raise GenError('%s: expected one impl, found %d' % (entry.key, len(c)))
                 a, b = ln(c[0])
-                return [Located(self._impl_text(sf, c[0]), entry.file, a, b)]
+                drop = tuple(x.strip() for x in entry.opts.get('drop_fns', '').split(',') if x.strip())
+                return [Located(self._impl_text(sf, c[0], drop), entry.file, a, b)]
             assert loc[1].startswith('fn ')
             name = loc[1][3:].strip()
             found = []
